@@ -86,7 +86,7 @@ def run(a, seed, t_start):
         print(f"CHECKER-ERROR property={prop}: fakesnow imported from {fs_file}, not from {repo}")
         return 3
 
-    timeout_s = a.timeout or (10 if a.tier == "quick" else 30)
+    timeout_s = a.timeout or (20 if a.tier == "quick" else 40)
     # ------------------------------------------------------------------ deductive tier
     fun_reports = []
     all_obls = []
@@ -113,7 +113,7 @@ def run(a, seed, t_start):
         # one escalation (x4) for anything left open
         open_ = [o for o in obls if (o.verdict != "discharged") and not o.expect_refuted]
         if open_:
-            discharge(open_, timeout_ms=timeout_s * 4000)
+            discharge(open_, timeout_ms=timeout_s * 3000)
         solver_time += sum(o.time for o in obls)
         trusted |= r.trusted_used
         byid = {o.id: o for o in obls}
